@@ -395,6 +395,8 @@ func (a *Act) dispatch(res ssa.Value, instr ssa.Instruction, c *ssa.CallCommon, 
 		cond := g.def(a.nm("disp"), "Bool", fmt.Sprintf("(and %s (= (itag %s) %d))", reach, recv, g.tag(im.typ)))
 		covered = append(covered, fmt.Sprintf("(= (itag %s) %d)", recv, g.tag(im.typ)))
 		sub := st.clone()
+		// the dynamic type determines the representation of the boxed value
+		g.assumeIf(cond, a.boxShape(im.typ, recv))
 		rv := a.unboxIface(im.typ, recv, sub)
 		// use a scratch value holder for results
 		holder := &resultHolder{}
@@ -526,19 +528,24 @@ func (a *Act) builtin(res ssa.Value, instr ssa.Instruction, c *ssa.CallCommon, f
 		}
 	case "copy":
 		dst, src := args[0], args[1]
-		var n, srcArr, srcOff string
+		var n, srcOff string
 		el := c.Args[0].Type().Underlying().(*types.Slice).Elem()
-		k := kindOf(el)
-		if k == "" || slots(el) != 1 {
-			a.havocCall(res, instr, st, reach, "copy of multi-slot elems", false)
-			return
+		stride := slots(el)
+		kinds := map[string]bool{}
+		typeKinds(el, kinds)
+		for k := range kinds {
+			if k == "" {
+				a.havocCall(res, instr, st, reach, "copy of unsupported elems", false)
+				return
+			}
 		}
-		if isString(c.Args[1].Type()) {
+		isStr := isString(c.Args[1].Type())
+		if isStr {
 			n = g.def(a.nm("copy_n"), "Int", fmt.Sprintf("(ite (<= (sllen %s) (slen %s)) (sllen %s) (slen %s))", dst, src, dst, src))
-			srcArr, srcOff = fmt.Sprintf("(arrofseq %s)", src), "0"
+			srcOff = "0"
 		} else {
 			n = g.def(a.nm("copy_n"), "Int", fmt.Sprintf("(ite (<= (sllen %s) (sllen %s)) (sllen %s) (sllen %s))", dst, src, dst, src))
-			srcArr, srcOff = fmt.Sprintf("(select %s (sref %s))", st.H[k], src), fmt.Sprintf("(soff %s)", src)
+			srcOff = fmt.Sprintf("(soff %s)", src)
 		}
 		if g.checkFrame {
 			cond := fmt.Sprintf("(or (<= %s 0) (>= (sref %s) %s))", n, dst, g.entry.Next)
@@ -547,7 +554,17 @@ func (a *Act) builtin(res ssa.Value, instr ssa.Instruction, c *ssa.CallCommon, f
 			}
 			g.oblige("frame", a.srcDetail(instr), reach, cond, a.pos(instr.Pos()), "copy writes only memory allocated during the call or listed in modifies")
 		}
-		st.H[k] = g.def("H"+k, heapSort[k], fmt.Sprintf("(ite (> %s 0) (store %s (sref %s) (%s (select %s (sref %s)) (soff %s) %s %s %s)) %s)", n, st.H[k], dst, arrcopyFn[k], st.H[k], dst, dst, srcArr, srcOff, n, st.H[k]))
+		pre := st.clone()
+		for _, k := range heapKinds {
+			if !kinds[k] {
+				continue
+			}
+			srcArr := fmt.Sprintf("(select %s (sref %s))", pre.H[k], src)
+			if isStr {
+				srcArr = fmt.Sprintf("(arrofseq %s)", src)
+			}
+			st.H[k] = g.def("H"+k, heapSort[k], fmt.Sprintf("(ite (> %s 0) (store %s (sref %s) (%s (select %s (sref %s)) (soff %s) %s %s %s)) %s)", n, pre.H[k], dst, arrcopyFn[k], pre.H[k], dst, dst, srcArr, srcOff, mulConst(stride, n), pre.H[k]))
+		}
 		if res != nil {
 			a.bind(res, n)
 		}
@@ -565,6 +582,12 @@ func (a *Act) builtin(res ssa.Value, instr ssa.Instruction, c *ssa.CallCommon, f
 	case "panic":
 		if g.eng.wantSafety {
 			g.oblige("explicit-panic", a.srcDetail(instr), reach, "false", a.pos(instr.Pos()), "panic() unreachable")
+		}
+	case "ssa:wrapnilchk":
+		// wrapper methods: panics if the receiver pointer is nil, otherwise returns it
+		a.safety("nil-deref", instr, reach, fmt.Sprintf("(not (= (pref %s) 0))", args[0]), "value method called through a nil pointer")
+		if res != nil {
+			a.bind(res, args[0])
 		}
 	case "print", "println":
 	case "recover":
@@ -590,16 +613,21 @@ func (a *Act) appendOp(res ssa.Value, instr ssa.Instruction, c *ssa.CallCommon, 
 	g := a.g
 	s, t := args[0], args[1]
 	el := c.Args[0].Type().Underlying().(*types.Slice).Elem()
-	k := kindOf(el)
-	if slots(el) != 1 || k == "" {
-		a.havocCall(res, instr, st, reach, "append of multi-slot elems "+el.String(), false)
-		return
+	stride := slots(el)
+	kinds := map[string]bool{}
+	typeKinds(el, kinds)
+	for k := range kinds {
+		if k == "" {
+			a.havocCall(res, instr, st, reach, "append of unsupported elems "+el.String(), false)
+			return
+		}
 	}
-	var tlen, tArr, tOff string
-	if isString(c.Args[1].Type()) {
-		tlen, tArr, tOff = fmt.Sprintf("(slen %s)", t), fmt.Sprintf("(arrofseq %s)", t), "0"
+	isStr := isString(c.Args[1].Type())
+	var tlen string
+	if isStr {
+		tlen = fmt.Sprintf("(slen %s)", t)
 	} else {
-		tlen, tArr, tOff = fmt.Sprintf("(sllen %s)", t), fmt.Sprintf("(select %s (sref %s))", st.H[k], t), fmt.Sprintf("(soff %s)", t)
+		tlen = fmt.Sprintf("(sllen %s)", t)
 	}
 	base := "append"
 	if res != nil {
@@ -614,17 +642,38 @@ func (a *Act) appendOp(res ssa.Value, instr ssa.Instruction, c *ssa.CallCommon, 
 		}
 		g.oblige("frame", a.srcDetail(instr), reach, cond, a.pos(instr.Pos()), "in-place append writes only memory allocated during the call or listed in modifies")
 	}
-	hPre := st.H[k]
+	pre := st.clone()
 	ref := a.alloc(st, a.nm(base), arrAlloc(el))
 	newcap := g.havoc(a.nm(base+"_cap"), "Int")
 	g.assumeIf(reach, fmt.Sprintf("(>= %s %s)", newcap, total))
-	cp := arrcopyFn[k]
-	inpl := fmt.Sprintf("(store %s (sref %s) (%s (select %s (sref %s)) (+ (soff %s) (sllen %s)) %s %s %s))", st.H[k], s, cp, hPre, s, s, s, tArr, tOff, tlen)
-	real := fmt.Sprintf("(store %s %s (%s (%s %s 0 (select %s (sref %s)) (soff %s) (sllen %s)) (sllen %s) %s %s %s))", st.H[k], ref, cp, cp, heapZero[k], hPre, s, s, s, s, tArr, tOff, tlen)
-	// appending nothing to a slice with enough capacity (including nil+nothing) returns the slice itself
-	st.H[k] = g.def("H"+k, heapSort[k], fmt.Sprintf("(ite %s %s (ite (and (= %s 0) (<= %s (scap %s))) %s %s))", inplace, inpl, tlen, total, s, st.H[k], real))
+	keep := fmt.Sprintf("(and (= %s 0) (<= %s (scap %s)))", tlen, total, s)
+	for _, k := range heapKinds {
+		if !kinds[k] {
+			continue
+		}
+		cp := arrcopyFn[k]
+		var tArr, tOff string
+		if isStr {
+			tArr, tOff = fmt.Sprintf("(arrofseq %s)", t), "0"
+		} else {
+			tArr, tOff = fmt.Sprintf("(select %s (sref %s))", pre.H[k], t), mulConst(stride, fmt.Sprintf("(soff %s)", t))
+			if stride == 1 {
+				tOff = fmt.Sprintf("(soff %s)", t)
+			}
+		}
+		// slot arithmetic: offsets of a slice are already in slots; lengths are in elements
+		sOff := fmt.Sprintf("(soff %s)", s)
+		sLenSlots := mulConst(stride, fmt.Sprintf("(sllen %s)", s))
+		tLenSlots := mulConst(stride, tlen)
+		if !isStr {
+			tOff = fmt.Sprintf("(soff %s)", t)
+		}
+		inpl := fmt.Sprintf("(store %s (sref %s) (%s (select %s (sref %s)) (+ %s %s) %s %s %s))", st.H[k], s, cp, pre.H[k], s, sOff, sLenSlots, tArr, tOff, tLenSlots)
+		real := fmt.Sprintf("(store %s %s (%s (%s %s 0 (select %s (sref %s)) %s %s) %s %s %s %s))", st.H[k], ref, cp, cp, heapZero[k], pre.H[k], s, sOff, sLenSlots, sLenSlots, tArr, tOff, tLenSlots)
+		st.H[k] = g.def("H"+k, heapSort[k], fmt.Sprintf("(ite %s %s (ite %s %s %s))", inplace, inpl, keep, st.H[k], real))
+	}
 	if res != nil {
-		a.bind(res, fmt.Sprintf("(ite %s (mkSlice (sref %s) (soff %s) %s (scap %s)) (ite (and (= %s 0) (<= %s (scap %s))) %s (mkSlice %s 0 %s %s)))", inplace, s, s, total, s, tlen, total, s, s, ref, total, newcap))
+		a.bind(res, fmt.Sprintf("(ite %s (mkSlice (sref %s) (soff %s) %s (scap %s)) (ite %s %s (mkSlice %s 0 %s %s)))", inplace, s, s, total, s, keep, s, ref, total, newcap))
 	}
 }
 
